@@ -3,7 +3,7 @@
     Statements only; proofs are in Proofs/C03_merge.v, C03_levels.v, C03_order.v. *)
 From Coq Require Import Permutation.
 From InvokeVerif Require Import Common.Tree Common.StrUtil Model.MergeModel Model.ConfigModel
-     Spec.C03Spec Proofs.C03_merge Proofs.C03_levels Proofs.C03_order.
+     Spec.C03Spec Proofs.C03_merge Proofs.C03_levels Proofs.C03_order Proofs.C03_sweep.
 
 (** Path lookup through [merge_dicts] for type-consistent trees: the merge
     succeeds, stays well-formed, and at every path shows what the update says
@@ -136,6 +136,17 @@ Theorem C03_later_candidates_irrelevant : forall fs fs' loc,
   first_existing fs loc = first_existing fs' loc ->
   try_suffixes fs loc file_suffixes = try_suffixes fs' loc file_suffixes.
 Proof. exact later_candidates_irrelevant. Qed.
+
+(** A test, not the property: for two constructor settings (lazy/empty and
+    eager with defaults+overrides), every script of at most 2 load calls from a
+    14-letter alphabet (plain and merge=False variants of every level, merge())
+    followed by merge(), load_shell_env() or both, over a file system with
+    several candidates per location, the model's run is accepted by the FULL
+    executable specification (view, environment level, suffixes read). *)
+Theorem C03_model_meets_spec_bounded_2 :
+  forallb (fun i => forallb (fun body => forallb (fun e => script_ok i (body ++ e)) endings)
+                            (scripts 2)) inits = true.
+Proof. exact model_meets_spec_bounded. Qed.
 
 (** Non-vacuity: three type-consistent levels defining a common nested path, a
     section that is a union, and a script whose two orders satisfy the
